@@ -125,9 +125,6 @@ def exp_hook(dim, name):
         kind, vec, form = pa
         if th is not None:
             # exp(S, theta) = exp(theta S) for a unit twist
-            if form != 'vec':
-                ctx.ood('exp.contract')
-                return
             w = vec if kind == 'so' else vec[len(vec) - (3 if dim == 3 else 1):]
             v = vec[:len(vec) - len(w)]
             unit = abs(np.linalg.norm(w) - 1) < 1e-15 or (kind == 'se' and np.linalg.norm(w) == 0 and abs(np.linalg.norm(v) - 1) < 1e-15)
@@ -135,7 +132,7 @@ def exp_hook(dim, name):
                 ctx.ood('exp.contract')
                 return
             vec = vec * float(th)
-            form = 'unit+theta'
+            form = 'unit+theta' if form == 'vec' else form + '+theta'
         check_exp_value(ctx, 'exp.contract', 'base.' + name, kind, vec, res, form)
 
     def on_raise(args, kw, exc, st):
@@ -146,6 +143,16 @@ def exp_hook(dim, name):
             pa = parse_alg(S, dim) if fin(S) else None
         except Exception:
             pa = None
+        if pa is not None and th is not None:
+            # exp(S, theta): a unit twist (either rotation sense, or prismatic) with a finite scalar theta must be accepted
+            kind, vec, form = pa
+            w = vec if kind == 'so' else vec[len(vec) - (3 if dim == 3 else 1):]
+            v = vec[:len(vec) - len(w)]
+            unit = abs(np.linalg.norm(w) - 1) < 1e-15 or (kind == 'se' and np.linalg.norm(w) == 0 and abs(np.linalg.norm(v) - 1) < 1e-15)
+            if unit and fin(th) and np.ndim(th) == 0:
+                ctx.bad('exp.contract', dict(api='base.' + name, algebra=kind, form=form + '+theta', kind='raised', exc=type(exc).__name__),
+                        'base.%s(%s, %r) raised %r for a unit twist' % (name, core.short(S), th, exc))
+                return
         if pa is None or th is not None:
             ctx.ood('exp.contract')
             return
@@ -448,7 +455,7 @@ def run(ctx):
                 u = u / np.linalg.norm(u)
                 U = np.r_[u, np.zeros(nso)]
             if abs(np.linalg.norm(U[len(U) - nso:]) - 1) < 1e-15 or np.linalg.norm(U[len(U) - nso:]) == 0:
-                p = dict(dim=dim, S=U, theta=float(gen.angle(rng)))
+                p = dict(dim=dim, S=U if rng.random() < 0.7 else (ref.skew(U) if kind == 'so' else ref.skewa(U)), theta=float(gen.angle(rng)))
         drive(RUNNERS, ctx, 'exp', p)
         if ctx.ncases % 1999 == 1:
             ctx.sample(dict(case='exp', **p))
